@@ -174,6 +174,28 @@ func genC02(g *gen) {
 			g.emit(fmt.Sprintf("new %s 3,4 %s", dt, src), "slice $0 1:2,2:3", "dump $1", "slice $1 0,0", "dump $2", "slice $2 -", "dump $3", "at $3 -")
 		}
 	}
+	// sources that own their data under other strides than the default ones (the clone of a view with gaps, the SafeT of a
+	// transposed tensor undone): leading single indices, ranges, nested
+	for _, dt := range []string{"i16", "f64"} {
+		for _, mk := range [][]string{{"new %s 2,3,4 C", "slice $0 n,n,1:3", "clone $1"}, {"new %s 3,4 C", "slice $0 n,0:4:2", "clone $1"},
+			{"new %s 2,3,4 C", "slice $0 n,0:3:2", "clone $1"}, {"new %s 3,4 C", "T $0 1,0", "safeT $0 -", "UT $1"}, {"new %s 2,3,4 Fraw", "slice $0 n,1:3", "clone $1"}} {
+			src := 2
+			if len(mk) == 4 {
+				src = 1
+			}
+			for _, sl := range []string{"0", "1", "1,n", "0,1", "1,0:2", "0:2", "n,1", "1,1,0", "0,n,1"} {
+				steps := []string{}
+				for _, m := range mk {
+					if strings.Contains(m, "%s") {
+						m = fmt.Sprintf(m, dt)
+					}
+					steps = append(steps, m)
+				}
+				steps = append(steps, fmt.Sprintf("slice $%d %s", src, sl), fmt.Sprintf("dump $%d", src+1), fmt.Sprintf("mat $%d", src+1), fmt.Sprintf("dump $%d", src+2), fmt.Sprintf("dump $%d", src))
+				g.emit(steps...)
+			}
+		}
+	}
 	// rank 1: complete space, all sources
 	for d := 1; d <= maxd+1; d++ {
 		for k, a := range fullAxisSpace(d) {
@@ -336,6 +358,14 @@ func genC03(g *gen) {
 	shs = append(shs, []int{2, 2, 2}, []int{2, 2, 2, 2}, []int{2, 3, 2, 3}, []int{2, 1, 3, 2}, []int{2, 3, 2, 1, 2}, []int{2, 2, 2, 2, 2}, []int{1, 2, 1, 3, 1})
 	srcs := []string{"C", "Fraw", "Fconv", "sliced"}
 	g.rollMatrix()
+	// large extents (blocked / tiled data movement starts at some size): both extents of 16 and more and not multiples of
+	// 16, one of them below, rank 3; every element width; physical transposition, the copying forms, the undo
+	for _, dt := range widthDtypes {
+		for _, c := range []struct{ sh, p string }{{"20,18", "1,0"}, {"17,17", "1,0"}, {"33,35", "1,0"}, {"16,32", "1,0"}, {"5,40", "1,0"}, {"3,17,18", "2,0,1"}, {"18,3,17", "1,2,0"}} {
+			g.emit(fmt.Sprintf("new %s %s C", dt, c.sh), "T $0 "+c.p, "transpose $0", "dump $0")
+			g.emit(fmt.Sprintf("new %s %s C", dt, c.sh), "apiTranspose $0 "+c.p, "dump $1", "safeT $0 "+c.p, "transpose $2", "dump $2", "dump $0")
+		}
+	}
 	for si, sh := range shs {
 		ps := perms(len(sh))
 		for pi, p := range ps {
@@ -606,6 +636,15 @@ func genC04(g *gen) {
 			g.emit(steps...)
 		}
 	}
+	// wide shapes (inner extents of 8 and more, where row-wise fast paths start): views with a sliced middle or leading
+	// axis materialised, cloned, copied into
+	for _, dt := range []string{"i16", "f64", "str"} {
+		for _, c := range []struct{ sh, sl string }{{"2,4,10", "n,1:3"}, {"2,4,10", "n,0:4:2"}, {"2,4,10", "1,1:3"}, {"3,4,9", "0:3:2,1:3"}, {"4,12", "1:3"},
+			{"4,12", "n,2:11"}, {"2,3,8", "n,n,0:8:2"}, {"2,2,3,8", "n,1,1:3"}, {"3,16", "0:3:2"}} {
+			g.emit(fmt.Sprintf("new %s %s C", dt, c.sh), "slice $0 "+c.sl, "mat $1", "dump $2", "clone $1", "dump $3", "dump $1", "memset $2", "dump $0")
+			g.emit(fmt.Sprintf("new %s %s C", dt, c.sh), "T $0 -", "slice $0 "+strings.Join(reverseStrs(strings.Split(c.sl, ",")), ","), "mat $1", "dump $2", "dump $1")
+		}
+	}
 	// a copy shares nothing with its source, the metadata included: the clone of a lazily transposed tensor is moved
 	// physically (or handed back to the pool) and the source's pending transposition is then undone - and the other
 	// way round; the same through the copying transposition and the materialisation of a transposed view
@@ -704,6 +743,14 @@ func genC04(g *gen) {
 		}
 		g.emit(steps...)
 	}
+}
+
+func reverseStrs(xs []string) []string {
+	out := make([]string, len(xs))
+	for i, x := range xs {
+		out[len(xs)-1-i] = x
+	}
+	return out
 }
 
 func factorisations(n, maxRank int) [][]int {
